@@ -46,7 +46,7 @@ pub fn zip_history(cx: &mut Ctx, ops: &[(u32, Vec<u64>)]) {
                    must_refuse = if a0 >= n || (a1 as u64) < a_.lo { Some(true) } else if (a1 as u64) <= a_.hi { Some(false) } else { None };
                    let mut z2 = a_.z.clone();
                    guarded(move || { z2.set(a0, a1); z2 }).map(|z| { a_.z = z; if a0 < n { a_.sh[a0] = Some(a1 as u64); } }) }
-            5 => { must_refuse = Some(a0 >= n); let z2 = &a_.z;
+            5 => { must_refuse = Some(a0 >= n); let z2 = &a_.z; // Some(false): an index below the size has to be answered
                    guarded(move || z2.get(a0)).map(|x| { if !known(&a_.sh, a0, x) { bad = Some(format!("get({}) = {} but a Vec holds {:?}", a0, x, a_.sh[a0])); } }) }
             6 => { must_refuse = Some(a0.checked_add(1).map_or(true, |j| j >= n)); let z2 = &a_.z;
                    guarded(move || z2.get2(a0)).map(|[x, y]| { if !known(&a_.sh, a0, x) || !known(&a_.sh, a0 + 1, y) { bad = Some(format!("get2({}) = [{}, {}] but a Vec holds {:?}, {:?}", a0, x, y, a_.sh.get(a0), a_.sh.get(a0 + 1))); } }) }
@@ -68,7 +68,8 @@ pub fn zip_history(cx: &mut Ctx, ops: &[(u32, Vec<u64>)]) {
             14 => { let c = a_.z.clone(); a_.z = c; Ok(()) }
             15 => { if a_.z.uintbits() > 58 { Ok(()) } else { let z2 = &a_.z;
                    guarded(move || ZipIntVec::fast_get(z2.data(), z2.uintbits(), z2.uintmask(), z2.min_val(), a0).ok()).map(|g| match g {
-                       Some(x) => if a0 < n && !known(&a_.sh, a0, x) { bad = Some(format!("fast_get({}) = {} but a Vec holds {:?}", a0, x, a_.sh[a0])); },
+                       Some(x) => { if a0 < n && !known(&a_.sh, a0, x) { bad = Some(format!("fast_get({}) = {} but a Vec holds {:?}", a0, x, a_.sh[a0])); }
+                                    if a0 >= n && (a0 as u128 * a_.z.uintbits() as u128) / 8 + 8 > a_.z.data().len() as u128 { bad = Some(format!("fast_get({}) over {} bytes of {}-bit fields returned {} instead of the out-of-bounds error", a0, a_.z.data().len(), a_.z.uintbits(), x)); } }
                        None => if a0 < n { bad = Some(format!("fast_get({}) refuses an index below size {}", a0, n)); } }) } }
             16 => { a_ = ZS { z: ZipIntVec::default(), sh: vec![], lo: 0, hi: 0 }; Ok(()) }
             _ => { // housekeeping accessors between the operations; every stored value lies in min_val()..=max_val()
@@ -76,11 +77,18 @@ pub fn zip_history(cx: &mut Ctx, ops: &[(u32, Vec<u64>)]) {
                    if z.uintbits() <= 58 { for (i, w) in a_.sh.iter().enumerate() { if let Some(w) = w { if *w < z.min_val() as u64 || *w > z.max_val() as u64 { bad = Some(format!("element {} = {} outside min_val() {} ..= max_val() {}", i, w, z.min_val(), z.max_val())); } } } }
                    Ok(()) }
         };
-        let wide = a_.z.uintbits() > 58 || b_.z.uintbits() > 58 || a_.hi - a_.lo.min(a_.hi) >= (1u64 << 58) || a.iter().any(|&x| x >= (1u64 << 58));
+        // the recorded finding is about ranges needing more than 58 bits: the arguments that carry a value or a range, not the indices
+        let lim = 1u64 << 58;
+        let wide_arg = match op { 0 | 10 => (a2 as u64).saturating_sub(a1 as u64) >= lim, 2 | 3 => a.iter().max().copied().unwrap_or(0) - a.iter().min().copied().unwrap_or(0) >= lim,
+            4 => (a1 as u64).saturating_sub(a_.lo) >= lim, 8 => (a0 as u64).saturating_sub(a_.lo) >= lim, _ => false };
+        let wide = a_.z.uintbits() > 58 || b_.z.uintbits() > 58 || a_.hi - a_.lo.min(a_.hi) >= lim || wide_arg;
         let class = if wide { Some("min0_width_above_58") } else { None };
         match r {
             Ok(()) => { if must_refuse == Some(true) && bad.is_none() { bad = Some(format!("{} {:?} on {} elements in {}..={} was not refused", ZIP_OPS[*op as usize], a, n, a_.lo, a_.hi)); } }
-            Err(msg) => { if must_refuse == Some(false) { cx.sum.fail(cell, class, cj.clone(), &format!("{} {:?} on {} elements panicked: {}", ZIP_OPS[*op as usize], a, n, msg)); } }
+            Err(msg) => {
+                // reading an element nothing was stored in (grown by resize, re-ranged) is not constrained: min_val + stale bits may even overflow
+                let unknown_read = match op { 5 | 15 => matches!(a_.sh.get(a0), Some(None)), 6 => matches!(a_.sh.get(a0), Some(None)) || matches!(a_.sh.get(a0.wrapping_add(1)), Some(None)), 7 => matches!(a_.sh.last(), Some(None)), _ => false };
+                if must_refuse == Some(false) && !unknown_read { cx.sum.fail(cell, class, cj.clone(), &format!("{} {:?} on {} elements panicked: {}", ZIP_OPS[*op as usize], a, n, msg)); } }
         }
         if let Some(d) = bad { cx.sum.fail(cell, class, cj.clone(), &d); }
         if !super::min0_carries_last_load(a_.z.inner()) || !super::min0_carries_last_load(b_.z.inner()) {
@@ -133,7 +141,7 @@ fn gen_tail(r: &mut Rng, mut size: u64, lo: u64, hi: u64) -> Vec<(u32, Vec<u64>)
                     if r.chance(1, 2) { for i in 0..size { ops.push((4, vec![i, val(r)])); } } }
             12 => { ops.push((12, vec![])); if r.chance(1, 2) { ops.push((8, vec![val(r)])); size += 1; } }
             13 => ops.push((14, vec![])),
-            14 => { let i = idx(r, size); ops.push((15, vec![i])); }
+            14 => { let i = if r.chance(1, 6) { *r.pick(&[1u64 << 61, (1u64 << 61) + 1, 1u64 << 58, u64::MAX, u64::MAX / 8 + 1, size + 64]) } else { idx(r, size) }; ops.push((15, vec![i])); }
             15 => ops.push((17, vec![])),
             16 => { // park the vector in the second slot, work on the other one, and take it back
                     ops.push((13, vec![])); ops.push((8, vec![r.below(1 << 20)])); ops.push((7, vec![])); ops.push((13, vec![])); }
